@@ -984,7 +984,7 @@ NGRID = 8
 
 
 def jobs(tier):
-    n = 1200 if tier == "thorough" else 80
+    n = 1200 if tier == "thorough" else 130
     js = [{"kind": "seq", "shard": i, "n": n} for i in range(32)]
     js += [{"kind": "grid", "shard": i, "nshard": NGRID} for i in range(NGRID)]
     js.append({"kind": "variants"})
